@@ -138,6 +138,14 @@ def l3_batch(seed, count, nq, driver, outdir, binary=None, profiles=("opt", "loo
             # walking-radius arithmetic in front of the router ("no limit" is exercised by C18's requests)
             q["maxacc"] = r.choice([1200, 1200, 900, 40000, 99999])
             q["maxegr"] = r.choice([1200, 1200, 900, 40000, 99999])
+            # boundary: a maximum EQUAL to the walking time of one of the rows (the row is kept: `<=`), so that rows slower
+            # than it are dropped by the server as they are by l3.effective_rows
+            for key, rows in (("maxacc", acc), ("maxegr", egr)):
+                # (>= 60 s: the points lie 11 m / 22 m from the stops, and the server's straight-line pre-filter drops every
+                # stop farther than limit * 1.39 m/s before the router is asked -- a smaller limit contradicts the layout)
+                ts = sorted(set(t for (_, t, _) in rows if t >= 60))
+                if ts and r.chance(0.3):
+                    q[key] = r.choice(ts)
             if q["maxtr"] == MAX_INT and r.chance(0.5):
                 q["maxtr"] = 1200
             ops.append(("route", q, False, acc, egr))
